@@ -17,6 +17,18 @@ CHECKS = {
    technique="TLA+ definitional spec + TLC exhaustive state emission replayed into code; TLC batch trace validation",
    design="6/C08"),
 }
+CHECKS["C01"] = dict(
+   text="spec/ChunkReader.tla transcribes NumpyFileReader.read_chunk (raw read, end-of-file inference, per-format cut, seek-back / "
+        "carried tail) as an L1 state machine; TLC checks NoDupOrReorder, Complete, CarryIsSuffix, LinesCounted, WholeEntries on every "
+        "configuration (entry shapes x CRLF x final newline x every chunk size 1..|file|+2 x seek/carry) of four cut-rule families and "
+        "prints every completed behaviour, which is replayed byte-exactly into the real reader lazily and eagerly (binding A); "
+        "executions of the real reader on all ten formats, real plain and gzip files and larger files are recorded (one event per "
+        "read_chunk return) and validated by TLC against the L0 guards of ChunkL0.tla (binding B). The quantifier (every chunk size "
+        "x file shape x mode) is a state-space quantifier, so exhaustive bounded model checking plus replay is the right level.",
+   note=TB + "Bounds: <=3 entries quick / <=4 thorough over fixed line-length shapes; larger files sampled (5-40 entries). "
+        "The as-built end-of-file rule (AsBuilt=TRUE) is kept as a regression witness that TLC refutes.",
+   technique="TLA+ L1 mechanism model checked by TLC + replay of every model behaviour into the reader + TLC trace validation against L0",
+   design="6/C01")
 PENDING = {}
 def main():
     props = [json.loads(l)["id"] for l in open(os.path.join(HERE, "properties.jsonl"))]
